@@ -347,7 +347,7 @@ def _scenarios(pid, tier, rng):
     if pid == "C08":
         return fam_hexital(rng, pid, k(220, 1300))
     if pid == "C07":
-        return fam_work(rng, pid, k(130, 700))
+        return fam_work(rng, pid, k(110, 600)) + fam_scale(rng, pid, k(40, 260), hists=k((60, 300), (100, 1600)))
     raise KeyError(pid)
 
 
@@ -711,6 +711,28 @@ def fam_hexital(rng, pid, count):
             # own scenario class (DESIGN.md 5.2): a Hexital built WITH candles and a lifespan creates a
             # member's timeframe manager from the already trimmed default candles
             sc["class"] = "hexital_lifespan_preloaded_timeframe"
+        out.append(sc)
+    return out
+
+
+def fam_scale(rng, pid, count, hists=(60, 300)):
+    """the same single-candle append at a short and at a long history: executed indicator code,
+    computed readings and look-back must be the same"""
+    out = []
+    for t in range(count):
+        if t % 6 == 5:
+            cfgs = _uniq([rand_cfg(rng, k) for k in rng.sample(ALL_KINDS, 5)])
+            sc = {"id": f"{pid}/scale/hex/{t}", "obj": "hex", "inds": cfgs, "hex": {}, "member_forms": ["obj"] * len(cfgs)}
+        else:
+            cfg = rand_cfg(rng, ALL_KINDS[t % len(ALL_KINDS)])
+            sc = {"id": f"{pid}/scale/{cfg.kind}/{t}", "obj": "ind", "inds": [cfg]}
+        style = rng.choice(["walk", "mixed", "flat_then_walk", "up"])
+        st = make_stream(rng, max(hists) + 1, style)
+        # the measured candle is the same at both history lengths: put it at both positions
+        last = st[-1]
+        st[hists[0]] = (st[hists[0]][0],) + last[1:]
+        sc.update({"fam": "work", "stream": st, "twins": [], "scale": list(hists), "prog": [],
+                   "clause_props": {"work": ["C07"], "exc": ["C07"]}, "names_fixed": True})
         out.append(sc)
     return out
 
